@@ -350,6 +350,9 @@ def po3(facts, rep):
                 rep.ok(rule, key, o['where'], 'interval / difference analysis')
             elif key in AUDIT:
                 rep.audited(rule, key, o['where'], AUDIT[key])
+            elif o.get('ty', '').startswith('u') and eng_po.implied_partial_sum(key, AUDIT):
+                k0 = eng_po.implied_partial_sum(key, AUDIT)
+                rep.audited(rule, key, o['where'], 'partial sum of unsigned terms of the audited sum `%s`: %s' % (k0.split('|')[2], AUDIT[k0]))
             else:
                 rep.bad(rule, key, o['where'], 'undischarged %s obligation: %s' % (o['kind'], o['detail']))
     rep.floor(rule, 'obligations enumerated', total, 15)
